@@ -30,8 +30,18 @@ public:
     void close() override
     {
         if (isOpen()) {
-            if (onClose) onClose();
+            if (onClose && !mClosing) onClose();
             setOpenMode(QIODevice::NotOpen);
+        }
+    }
+    // QAbstractSocket::disconnectFromHost(): the connection is shut once pending bytes are
+    // flushed; until then the socket stays writable.  Logged as the close request; later
+    // writes still reach the wire (and are then visible as bytes after the close).
+    void disconnectFromHost() override
+    {
+        if (isOpen() && !mClosing) {
+            mClosing = true;
+            if (onClose) onClose();
         }
     }
 
@@ -51,4 +61,5 @@ protected:
 
 private:
     QByteArray mIn;
+    bool mClosing = false;
 };
